@@ -94,6 +94,12 @@ def cases(thorough):
             K5 = dict(base, dz=1 / 2, dx=1.0, resolution={"x": 4, "y": 4}, operation="sum", origin=o, direction="z")
             for seq in ([K1, K2], [K2, K1], [K1, K3], [K3, K1], [K1, K4, K2], [K3, K5], [K5, K3], [K4, K1, K3]):
                 yield dict(base, block="S", sequence=[dict(x) for x in seq])
+            # ... and with one Layer object handed to every call of the sequence (the operation is given to each call)
+            K0 = dict(base, dz=1 / 4, dx=1.0, resolution=4, operation="sum", origin=o, direction="z")
+            K6 = dict(K5, operation="mean")
+            K7 = dict(K4, operation="max")
+            for seq in ([K5, K6], [K6, K5], [K0, K6], [K0, K7, K5], [K7, K6], [K5, K7, K6]):
+                yield dict(base, block="S", sequence=[dict(x) for x in seq], share_layer=True)
         if ndim == 3:
             normals = [(1, 1, 1), (-2, 1, 0), (1, 0, 2), (0, -1, 1), (2, -2, 1)] if not thorough else [n for n in itertools.product([-2, -1, 0, 1, 2], repeat=3) if n != (0, 0, 0)][::4]
             for n in normals:
@@ -102,15 +108,22 @@ def cases(thorough):
                 yield dict(base, block="C", dz=1 / 2, dx=1.0, resolution=3, operation="nanmin", origin=o2, direction=["normal", list(n)])
 
 
-def run_single(acc, idx, c, report=None):
+def run_single(acc, idx, c, report=None, shared=None):
     import osyris
 
     report = report or c
-    mesh, centres, sizes, vals = _map.build_mesh(c)
+    if shared is not None and "mesh" in shared:
+        mesh, centres, sizes, vals = shared["mesh"]
+    else:
+        mesh, centres, sizes, vals = _map.build_mesh(c)
+        if shared is not None:
+            # the calls of this sequence are given the same mesh and the same Layer object, as a script that keeps its layers does
+            shared["mesh"] = (mesh, centres, sizes, vals)
+            shared["layer"] = mesh.layer("density")
     box = c.get("box", 1.0)
     ndim = c["tree"]["ndim"]
     res = c.get("resolution")
-    p, basis = _map.call_map(c, mesh)
+    p, basis = _map.call_map(c, mesh, first_layer=None if shared is None else shared["layer"])
     thin = c["dz"] * box < sizes.min()
     tag = "slab-thinner-than-cells" if thin else "slab-not-thinner-than-cells"
     if isinstance(p, Exception):
@@ -145,9 +158,10 @@ def run_case(acc, idx, c):
     if "sequence" not in c:
         return run_single(acc, idx, c)
     out, nontrivial = "ok", False
+    shared = {} if c.get("share_layer") else None
     for k, sub in enumerate(c["sequence"]):
         before = set(acc.violations)
-        o, nt = run_single(acc, idx, dict(sub, block=c["block"]), report=c)
+        o, nt = run_single(acc, idx, dict(sub, block=c["block"]), report=c, shared=shared)
         nontrivial = nontrivial or nt
         if o not in ("ok",) and not str(o).startswith("skipped"):
             out = o
